@@ -34,7 +34,7 @@ import (
 
 var errStub = errors.New("stub storage error")
 
-const hangAfter = 120 * time.Second
+const hangAfter = 60 * time.Second
 
 func rowsOf(t, step int64) int { return 1 + int((t/step)%2) }
 
@@ -640,9 +640,9 @@ func (f *free) invalidate(times []int64, step int64) {
 	f.invMu.Lock()
 	idx := int64(len(f.invs))
 	ev := &finv{times: times, step: step}
-	f.invs = append(f.invs, ev)
 	// which loads are completely finished (published) before this invalidation begins?
 	f.mu.Lock()
+	f.invs = append(f.invs, ev)
 	for id, ld := range f.publ {
 		if f.v.LoadChunksDone(id) {
 			ld.pubInvIdx.Store(idx)
@@ -651,7 +651,9 @@ func (f *free) invalidate(times []int64, step int64) {
 		}
 	}
 	f.mu.Unlock()
-	f.invMu.Unlock()
+	// invalidations are issued by one goroutine at a time, as Handler.invalidateLoop does (concurrent
+	// cache2.invalidate calls on one shard would share shard.invalidateIter)
+	defer f.invMu.Unlock()
 	f.version.Add(1)
 	f.v.Invalidate(times, step)
 	ev.doneSeq.Store(f.seq.Add(1))
@@ -663,9 +665,9 @@ func (f *free) check(id, key int64, play int, step, from, to int64, beginSeq int
 		f.viol("wrong-slot-count", "request %d [%d,%d) step %d returned %d slots, want %d", id, from, to, step, len(rows), want)
 		return
 	}
-	f.invMu.Lock()
+	f.mu.Lock()
 	invs := f.invs
-	f.invMu.Unlock()
+	f.mu.Unlock()
 	for i, rs := range rows {
 		t := from + int64(i)*step
 		if len(rs) != rowsOf(t, step) {
@@ -793,12 +795,14 @@ func freeRunning(h *verifx.H) {
 				os.WriteFile(h.Arg, buf[:runtime.Stack(buf, true)], 0o644)
 			}
 			h.Obs("hang")
-			h.Viol("request-never-returns", "free-running case: workers still blocked after 2 min")
+			h.Viol("request-never-returns", "free-running case: workers still blocked after 60 s (a case normally takes well under 2 s)")
 			for _, v := range f.viols {
 				p := strings.SplitN(v, "\x00", 2)
 				h.Viol(p[0], "%s", p[1])
 			}
-			return // the cache is left behind; the process exits after the last case
+			// the blocked goroutines (and a possibly spinning trim goroutine) are left behind: stop here
+			h.Done()
+			os.Exit(0)
 		}
 		// cache emptied with nothing in flight: every water level is back to zero
 		f.v.SetLimits(0, 0, 0)
